@@ -300,15 +300,20 @@ Law_TypeMaps(n, B, K) ==
 \* relabelling the atoms relabels the answers (pi ranges over generators of the group; the
 \* model enumerates every labelled graph, so the law extends to every permutation)
 Law_Relabel(n, B, K, pi) ==
-  LET Bp == Relabel(B, pi)  Ea == AromEdgesOf(B)  Eap == AromEdgesOf(Bp) IN
+  LET Bp == Relabel(B, pi)
+      Ea == AromEdgesOf(B)
+      Eap == AromEdgesOf(Bp)
+      cs == CyclesIn(Ea, K)
+      csp == CyclesIn(Eap, K)
+  IN
   /\ Dom_Graph(n, Bp)
   /\ Eap = RelabelEdges(Ea, pi)
   /\ DeclRotatable(Bp, K) = Relabel(DeclRotatable(B, K), pi)
-  /\ CyclesIn(Eap, K) = {RelabelEdges(C, pi) : C \in CyclesIn(Ea, K)}
-  /\ RingBonds(Eap, K) = RelabelEdges(RingBonds(Ea, K), pi)
-  /\ RingAtoms(Eap, K) = RelabelAtoms(RingAtoms(Ea, K), pi)
+  /\ csp = {RelabelEdges(C, pi) : C \in cs}
+  /\ UNION csp = RelabelEdges(UNION cs, pi)                    \* ring bonds
+  /\ Verts(UNION csp) = RelabelAtoms(Verts(UNION cs), pi)      \* ring atoms
   /\ Mu(Eap) = Mu(Ea)
-  /\ SizeHist(MinBasis(CyclesIn(Eap, K), n), n) = SizeHist(MinBasis(CyclesIn(Ea, K), n), n)
+  /\ SizeHist(MinBasis(csp, n), n) = SizeHist(MinBasis(cs, n), n)
   /\ StripAromatic(Bp) = Relabel(StripAromatic(B), pi)
 
 (* ------------------------------------------------------------------ pinned examples *)
